@@ -797,7 +797,7 @@ pub fn run_memory_images(rep: &mut Report, thorough: bool) {
         }
     };
     for (b64, section_only) in [(true, false), (true, true), (false, false)] {
-        let spec = ElfSpec { bits64: b64, phdr_note: if section_only { None } else { Some((1..=20).collect()) }, section_note: if section_only { Some((1..=20).collect()) } else { None }, soname: Some("libmem.so.1".into()), section_table: true, text: vec![0x90; 64], vaddr_bias: 0, data_pages: 1, empty_first_note: false, text_skew: 0, soname_last: false, dynamic_section_cuts_null: false };
+        let spec = ElfSpec { bits64: b64, phdr_note: if section_only { None } else { Some((1..=20).collect()) }, section_note: if section_only { Some((1..=20).collect()) } else { None }, soname: Some("libmem.so.1".into()), section_table: true, text: vec![0x90; 64], vaddr_bias: 0, data_pages: 1, empty_first_note: false, text_skew: 0, soname_last: false, dynamic_section_cuts_null: false, big_endian: false };
         let built = elf::build(&spec);
         // in memory the section table of `build` lies beyond the loaded segments; here the whole file
         // image is placed in memory, so every table is reachable
@@ -962,7 +962,7 @@ fn unterminated_section_dynamic(rep: &mut Report, thorough: bool, release: bool)
         let dir = b.spec.dir.clone();
         let mut files = Vec::new();
         for (j, b64) in [(0, true), (1, k % 2 == 0)] {
-            let spec = ElfSpec { bits64: b64, phdr_note: Some((1..=20).collect()), section_note: None, soname: None, section_table: true, text: vec![0x90; 64], vaddr_bias: 0, data_pages: 1, empty_first_note: false, text_skew: 0, soname_last: false, dynamic_section_cuts_null: true };
+            let spec = ElfSpec { bits64: b64, phdr_note: Some((1..=20).collect()), section_note: None, soname: None, section_table: true, text: vec![0x90; 64], vaddr_bias: 0, data_pages: 1, empty_first_note: false, text_skew: 0, soname_last: false, dynamic_section_cuts_null: true, big_endian: false };
             scen::add_elf_file(&mut b, &mut rng, &dir, &format!("libnoterm{j}.so"), spec, j == 1 && k % 2 == 1, &mut files);
         }
         b.sentinel(&mut rng, Mode::Pause, &StackShape::default(), None, None);
